@@ -27,9 +27,15 @@ def main():
     if full:
         r = sh('cd %s && %s timeout 600 /venv/bin/python -W ignore %s/demo.py' % (d, env_demo, d))
         out['demo_clean_rc'] = r.returncode
-    r = sh('git -C %s apply %s/patch.diff' % (WT, d))
+    patch = os.path.join(d, 'patch.rebased.diff') if os.path.exists(os.path.join(d, 'patch.rebased.diff')) else os.path.join(d, 'patch.diff')
+    r = sh('git -C %s apply %s' % (WT, patch))
     if r.returncode != 0:
-        print('PATCH DOES NOT APPLY', r.stdout); return 2
+        # /repo has moved on (fix: commits): retry with reduced context and store the rebased patch
+        r = sh('git -C %s apply -C1 --recount %s' % (WT, patch))
+        if r.returncode != 0:
+            print('PATCH DOES NOT APPLY', r.stdout); return 2
+        open(os.path.join(d, 'patch.rebased.diff'), 'w').write(sh('git -C %s diff -- src' % WT).stdout)
+        print('   (patch rebased onto current /repo HEAD)')
     try:
         if full:
             r = sh('python3 /verif/tools/pinned.py %s' % WT)
